@@ -35,7 +35,7 @@ MANIFEST = {
             'seq_sends_unique evaluated in Coq on logged call trees with the real hop values, no repeated label on any '
             'connection (frame parser), observed counter ranges of all contexts of a party pairwise disjoint. '
             'Trusted: Coq kernel + vm_compute; simulator (lib.sim) driving the real MessageExchanger. Programs avoid `%` '
-            '(open finding F-C08-1). Per-protocol at_most_one_send_per_peer belongs to C07 (routing); here observed only.',
+            '(their own property is C08; F-C08-1/2 are fixed in /repo). Sessions also run with --no-barrier and with one lagging party while un-awaited coroutine chains are still running at shutdown. Per-protocol at_most_one_send_per_peer belongs to C07 (routing); here observed only.',
     'technique': 'Coq proof of the buffer machine + independent frame parser and buffer replay on simulator runs',
 }
 
@@ -146,16 +146,27 @@ def run(ctx):
         wide = {'m': m, 'ops': [['input', [rng.randint(-9, 9) for _ in range(m)]]] +
                 [[rng.choice(['mul', 'lt', 'mul', 'eq']), rng.randrange(m), rng.randrange(m)] for _ in range(ctx.n(20, 120))] +
                 [['transfer_all', 'W'], ['await', 0], ['output_all']]}
-        for pn, pf in base.policies(rng, m, nhold=ctx.n(2, m * (m - 1)), nrand=ctx.n(2, 4)):
-            if time.time() - t0 > budget * (ci + 1) / len(base.CONFIGS):
+        # the last program of every session leaves a chain of un-awaited coroutines running when shutdown begins
+        base.add_unawaited_chain(wide)
+        pols = [(pn, pf, ()) for pn, pf in base.policies(rng, m, nhold=ctx.n(2, m * (m - 1)), nrand=ctx.n(2, 4))]
+        lag = rng.randrange(m)
+        # barriers disabled (--no-barrier): shutdown must wait for outstanding coroutines all the same; one lagging party
+        pols += [('fifo', pols[0][1], ('--no-barrier',)),
+                 ('lag:%d:25' % lag, base.lagging(m, lag, 25), ('--no-barrier',)),
+                 ('lag:%d:25' % ((lag + 1) % m), base.lagging(m, (lag + 1) % m, 25), ())]
+        for pn, pf, extra in pols:
+            if time.time() - t0 > budget * (ci + 1) / len(base.CONFIGS) and not extra:
                 ctx.notes.append('time budget: skipped %s for (%d,%d)' % (pn, m, t))
                 continue
-            for no_prss in ((False, True) if pn == 'fifo' else (False,)):
-                sess = base.Session(m, t, ctx.seed + 5, no_prss=no_prss)
+            for no_prss in ((False, True) if pn == 'fifo' and not extra else (False,)):
+                sess = base.Session(m, t, ctx.seed + 5, no_prss=no_prss, extra=extra, start_policy=pf())
                 try:
                     bl = BufLog(sess)
                     sim = sess.sim
-                    key0 = {'m': m, 't': t, 'schedule': pn, 'no_prss': no_prss}
+                    key0 = {'m': m, 't': t, 'schedule': pn, 'no_prss': no_prss, 'options': list(extra)}
+                    if not sess.ok:
+                        ctx.violation('start (handshake) did not complete under %s (m=%d,t=%d)' % (pn.split(':')[0], m, t), {'case': key0})
+                        continue
                     failed = False
                     for pi, (spec, want) in enumerate(progs + [(wide, None)]):
                         res, starts = sess.run(spec, pf)
@@ -182,6 +193,7 @@ def run(ctx):
                                 meta.append((dict(key0, end=[a, b], after_program=pi), real, False))
                     if failed:
                         continue
+                    stats['sessions_with_tasks_pending_at_shutdown'] += 1 if any(sess.mon.pending_tasks(i) for i in range(m)) else 0
                     sd = sess.shutdown(pf)
                     if any(r is not True for r in sd):
                         ctx.violation('shutdown incomplete under %s (m=%d,t=%d)' % (pn.split(':')[0], m, t), {'case': key0, 'shutdown': sd})
@@ -194,7 +206,7 @@ def run(ctx):
                             frames, rest = sim.frames(a, b)
                             labels = [pc for pc, _ in frames]
                             key = dict(key0, link=[a, b])
-                            ctx.case(key, nontrivial=len(labels) >= 2, kind='(%d,%d) %s' % (m, t, pn.split(':')[0]))
+                            ctx.case(key, nontrivial=len(labels) >= 2, kind='(%d,%d) %s%s' % (m, t, pn.split(':')[0], ' no-barrier' if extra else ''))
                             stats['frames'] += len(labels)
                             if rest:
                                 ctx.violation('partial frame left on connection', dict(key, nbytes=len(rest)))
